@@ -149,6 +149,8 @@ CHECKS["C19"] = {
     "race": True,
     "subs": [
         _sub("TestC19_Threads", 640, 24000, sq=8, st=8),
+        # one case per process, several processes one after another per shard
+        _sub("TestC19_FirstUse", 8, 8, sq=8, st=8, waves={"quick": 3, "thorough": 64}),
     ],
     "watchdog": {"quick": 900, "thorough": 7200},
 }
